@@ -28,6 +28,24 @@ func checkC34(p *Prog, r *Report) {
 		r.unresolved("E8.source-untouched", "fs.CopyOrLinkFile / RecursiveCopyOrLinkFile / CopyFile")
 		return
 	}
+	// a copy always transfers the content: CopyFile reports success only as the result of writing the destination
+	if wf := p.Fn("fs", "WriteFile"); wf == nil {
+		r.unresolved("E5.copy-writes-the-content", "fs.WriteFile")
+	} else {
+		n, leak := 0, ""
+		for _, rc := range returnCases(cf, 0) {
+			n++
+			v := rc.Vals[0]
+			if c, ok := v.(*ssa.Call); ok && callsFn(c, wf) {
+				continue
+			}
+			if k, isNil := errKnown(rc.Facts, []ssa.Value{v}); k && !isNil {
+				continue
+			}
+			leak = p.pos(rc.Site)
+		}
+		r.check(n > 0 && leak == "", "E5.copy-writes-the-content", "CopyFile succeeds only by writing the destination", p.pos(cf.Pos()), fnName(cf), "every return is WriteFile's result or an error known to be non-nil", "CopyFile can return success (at "+leak+") without writing the destination, e.g. when an existing file has the same size, mode and a newer mtime: a regenerated source of the same length leaves the old content in place while the copy reports nil")
+	}
 	var cb *ssa.Function
 	for _, ci := range callsIn(rec, false, "fs.WalkMode", "fs.Walk") {
 		for _, a := range callCommon(ci).Args {
